@@ -17,7 +17,7 @@ for w in $(seq 0 $((n-1))); do
     sed -i "s#=> /repo#=> $wd/repo#" $wd/verif/harness/go.mod
     [ -f /tmp/camp/q$w ] || exit 0
     for id in $(cat /tmp/camp/q$w); do
-      p=${id%%-*}
+      p=$(python3 -c "import json;print(json.load(open('/verif/seeded/$id/meta.json'))['breaks_property'])")
       ( cd $wd/repo && git apply /verif/seeded/$id/patch.diff ) || { echo "$id patch does not apply"; continue; }
       out=$(cd $wd/verif && VERIF_REPO=$wd/repo VERIF_NOEVIDENCE=1 ./check $p 2>&1); rc=$?
       ( cd $wd/repo && git checkout -q -- . && git clean -fdq )
